@@ -168,9 +168,28 @@ pub fn run(tier: Tier) -> Run {
             ));
         }
     }
+    // ---- the Builder half, decided by the vcalls binary over every instruction-emitting Builder method
+    let vcalls = crate::report::verif_root().join("harness").join("target").join("release").join("vcalls");
+    match std::process::Command::new(&vcalls).arg("--c16").output() {
+        Ok(o) if o.status.success() => match serde_json::from_slice::<serde_json::Value>(&o.stdout) {
+            Ok(d) => {
+                let calls = d["calls"].as_u64().unwrap_or(0);
+                evals += calls;
+                nontrivial += d["methods"].as_u64().unwrap_or(0);
+                run.outcome("builder_calls_checked", calls);
+                for v in d["violations"].as_array().cloned().unwrap_or_default() {
+                    run.add(viol(v["key"].as_str().unwrap_or("C16:builder"), v["what"].as_str().unwrap_or(""), v["replay"].clone()));
+                }
+            }
+            Err(e) => run.machinery(format!("vcalls --c16 printed no JSON: {}", e)),
+        },
+        Ok(o) => run.machinery(format!("vcalls --c16 failed: {}", String::from_utf8_lossy(&o.stderr).lines().last().unwrap_or(""))),
+        Err(e) => run.machinery(format!("cannot run {}: {} (bin/check C16 builds it)", vcalls.display(), e)),
+    }
+    run.require_outcome("builder_calls_checked");
     run.set("evaluations", json!(evals));
     run.set("distinct_nontrivial", json!(nontrivial));
-    run.set("rule", json!("every (predicate, core opcode) pair: 12 exported predicates x 787 opcodes, compared with the three-valued class table (must / must-not / either) built from the Khronos instruction classes and the specification's list of termination instructions; non-trivial = opcodes for which at least one predicate holds"));
+    run.set("rule", json!("every (predicate, core opcode) pair: 12 exported predicates x 787 opcodes (+ every instruction-emitting Builder method called inside an open block: the block selection is cleared iff is_block_terminator(emitted opcode)), compared with the three-valued class table (must / must-not / either) built from the Khronos instruction classes and the specification's list of termination instructions; non-trivial = opcodes for which at least one predicate holds"));
     run.set("exhaustive", json!(true));
     run.set("bounds", json!({"predicates": PREDICATES.len(), "opcodes": g.insts.len()}));
     run.set("samples", json!(samples));
